@@ -206,6 +206,30 @@ theorem collect_partition (expand : Ast → Ast) (o : Opts) (hd : o.decl = true)
   simp [specState, filterMap_goDecl_import o hd ns hgo, filterMap_goDecl_decl o hd ns hgo, filterMap_goDecl_stmt o ns hgo,
     lastPkg_goDecl o hd _ ns hgo]
 
+/-- the file that is written for a macro-free Go source, section by section -/
+theorem written_partition (expand : Ast → Ast) (o : Opts) (hd : o.decl = true) (s : State) (asts : List Ast) (ns : List Node)
+    (hleaves : asts.flatMap (fun a => flatten (expand a)) = ns.map some) (hgo : ∀ n ∈ ns, goDecl n = true) :
+    written (evalFile expand o s (asts.map .code)) =
+      [.package_ (lastPackage s.pkg ns)]
+      ++ (ns.filter isImport).map (fun n => .import_ (.orig (nodeId n)))
+      ++ (if (ns.filter isImport).isEmpty then [] else [.blank])
+      ++ (ns.filter (fun n => !isImport n && !isPackage n)).map (fun n => .decl (.orig (nodeId n))) := by
+  rw [collect_partition expand o hd s asts ns hleaves hgo]
+  simp [written, List.map_map, Function.comp_def]
+
+/-- every written declaration section comes from a declaration of the source and every declaration of the source is
+    written: membership form of `collect_partition` -/
+theorem written_decl_iff (expand : Ast → Ast) (o : Opts) (hd : o.decl = true) (s : State) (asts : List Ast) (ns : List Node)
+    (hleaves : asts.flatMap (fun a => flatten (expand a)) = ns.map some) (hgo : ∀ n ∈ ns, goDecl n = true) (i : Item) :
+    i ∈ (evalFile expand o s (asts.map .code)).decls ↔ ∃ n ∈ ns, isImport n = false ∧ isPackage n = false ∧ i = .orig (nodeId n) := by
+  rw [collect_partition expand o hd s asts ns hleaves hgo]
+  simp only [List.mem_map, List.mem_filter]
+  constructor
+  · rintro ⟨n, ⟨hn, hp⟩, rfl⟩
+    refine ⟨n, hn, ?_, ?_, rfl⟩ <;> cases h1 : isImport n <;> cases h2 : isPackage n <;> simp_all
+  · rintro ⟨n, hn, h1, h2, rfl⟩
+    exact ⟨n, ⟨hn, by simp [h1, h2]⟩, rfl⟩
+
 /-! ## written_equals_expanded -/
 
 /-- **written_equals_expanded**: for any source (macros, `:`-forced chunks, failing chunks, `:quit`) and any expander, what
